@@ -18,6 +18,8 @@ type ResDef struct {
 	F1   string `json:"f1"`   // "-" = field absent
 	F2   string `json:"f2"`
 	Pol  string `json:"pol"` // none | keep | other
+	Lbl  string `json:"lbl"` // a value the template hard-codes for app.kubernetes.io/managed-by ("" = none)
+	Ver  string `json:"ver"` // API version of custom kinds (the same object served as verif.example/v1 and /v2)
 }
 
 type HookDef struct {
@@ -25,6 +27,7 @@ type HookDef struct {
 	Events []string `json:"events"`
 	Weight int      `json:"weight"`
 	Pols   []string `json:"pols"`
+	File   string   `json:"file"` // template file name (hooks are pre-ordered by kind, then by path)
 }
 
 type ChartDef struct {
@@ -66,13 +69,20 @@ func resTemplate(id string, d ResDef) string {
 	case "Service":
 		sb.WriteString("apiVersion: v1\nkind: Service\n")
 	case "Widget":
-		sb.WriteString("apiVersion: verif.example/v1\nkind: Widget\n")
+		v := d.Ver
+		if v == "" {
+			v = "v1"
+		}
+		sb.WriteString("apiVersion: verif.example/" + v + "\nkind: Widget\n")
 	case "Gadget":
 		sb.WriteString("apiVersion: verif.example/v1\nkind: Gadget\n")
 	default:
 		panic("unknown kind " + d.Kind)
 	}
 	fmt.Fprintf(&sb, "metadata:\n  name: %s\n", id)
+	if d.Lbl != "" {
+		fmt.Fprintf(&sb, "  labels:\n    app.kubernetes.io/managed-by: %s\n", d.Lbl)
+	}
 	switch d.Pol {
 	case "keep":
 		sb.WriteString("  annotations:\n    helm.sh/resource-policy: keep\n")
@@ -141,7 +151,11 @@ func BuildChart(name string, d ChartDef) (*chart.Chart, error) {
 	}
 	sort.Strings(hids)
 	for _, id := range hids {
-		files = append(files, &loader.BufferedFile{Name: "templates/" + id + ".yaml", Data: []byte(hookTemplate(id, d.Hooks[id]))})
+		fn := d.Hooks[id].File
+		if fn == "" {
+			fn = id + ".yaml"
+		}
+		files = append(files, &loader.BufferedFile{Name: "templates/" + fn, Data: []byte(hookTemplate(id, d.Hooks[id]))})
 	}
 	for _, id := range d.CRDs {
 		crd := fmt.Sprintf("apiVersion: apiextensions.k8s.io/v1\nkind: CustomResourceDefinition\nmetadata:\n  name: %s\nspec:\n  group: verif.example\n  names:\n    kind: K%s\n    plural: %ss\n  scope: Namespaced\n", id, id, id)
